@@ -339,8 +339,9 @@ Definition iter_intermediate_paths (f : fsys) (inner outer : path) : list path :
 Record env := mkEnv { e_home : path; e_xdg : option path; e_cwd : path }.
 
 (* _get_user_config_dir_path("linux") *)
+Definition cross_dir (e : env) : path := e_home e ++ [lit ".config"; lit "sqlfluff"].     (* ~/.config/sqlfluff *)
 Definition user_config_dir (f : fsys) (e : env) : path :=
-  let cross := e_home e ++ [lit ".config"; lit "sqlfluff"] in
+  let cross := cross_dir e in
   if is_dir f cross then cross
   else match e_xdg e with
        | Some x => x ++ [lit "sqlfluff"]
@@ -611,6 +612,46 @@ Definition inline_settings (raw : text) : list (list key * V) :=
                              | _ => []
                              end
                         else []) (splitlines raw).
+
+
+(* observation of a layer that may have failed to load *)
+Definition okind (p : list key) (r : res dict) : option (option V) :=
+  match r with Ok d => kind_at p d | Err _ => None end.
+
+(* THE PRECEDENCE ORDER, as a specification: what is observed at path p in the config file `sf` is linted with.
+   defaults < file layers (file_layers order; `{"core": {}}` stands in when they are all empty) < overrides (under core),
+   then the file's own inline directives in file order. *)
+Definition spec_kind (f : fsys) (e : env) (rt : root) (sf : path * text) (configs_empty : bool) (p : list key)
+  : option (option V) :=
+  inline_over p (inline_settings (snd sf))
+    (last_some ([kind_at p (r_defaults rt)]
+                ++ (if configs_empty then [kind_at p [(core, Dict [])]]
+                    else map (okind p) (file_layers f e (fst sf) (r_extra rt) (r_ignore_local rt)))
+                ++ [kind_at p (core_wrap (r_overrides rt))])).
+
+Definition is_nil {A} (l : list A) : bool := match l with [] => true | _ => false end.
+
+(* the directories (and paths tested for being directories) that the config of the file at `pth` is read from *)
+Definition dir_of (f : fsys) (q : path) : path := if is_dir f q then q else removelast q.
+Definition relevant (f : fsys) (e : env) (extra : option path) (pth : path) : list path :=
+  let ups := e_home e :: user_config_dir f e
+             :: iter_intermediate_paths f pth (e_home e) ++ iter_intermediate_paths f pth (e_cwd e) in
+  [cross_dir e; pth] ++ ups ++ map (dir_of f) ups
+  ++ match extra with Some x => [x; removelast x] | None => [] end.
+
+
+(* decidable well-formedness (distinct keys at every level), for the examples and for the harness to check its inputs *)
+Fixpoint nodupb (l : list key) : bool :=
+  match l with [] => true | k :: r => negb (existsb (text_eqb k) r) && nodupb r end.
+Fixpoint wfb (c : cfg) : bool :=
+  match c with
+  | Leaf _ => true
+  | Dict l => nodupb (map fst l) &&
+              (fix all (l : list (key * cfg)) : bool := match l with [] => true | (_, x) :: r => wfb x && all r end) l
+  end.
+Definition wfdb (d : dict) : bool := wfb (Dict d).
+Definition content_wfb (c : fcontent) : bool := match c with FToml d => wfdb d | FIni _ => true end.
+Definition fs_wfb (f : fsys) : bool := forallb (fun pf => forallb (fun nc => content_wfb (snd nc)) (snd pf)) f.
 
 End WithValues.
 
